@@ -380,10 +380,12 @@ def readBlocks (csize : Int) : Nat → Bytes → Nat → Proc (Except SErr Bytes
           | none => .ret (.error .eof)
           | some blk => readBlocks csize fuel (buf ++ blk) ((sum + Wl2k.B2F.dataSum blk) % 256)
       else if c = 4 then .readByte fun o =>
-        let ck := match o with | some x => x.toNat | none => 0
-        if (sum + ck) % 256 ≠ 0 then .ret (.error (.proto "bad-checksum"))
-        else if csize ≠ buf.length then .ret (.error (.proto "length-mismatch-after-eot"))
-        else .ret (.ok buf)
+        match o with
+        | none => .ret (.error .eof)
+        | some x =>
+          if (sum + x.toNat) % 256 ≠ 0 then .ret (.error (.proto "bad-checksum"))
+          else if csize ≠ buf.length then .ret (.error (.proto "length-mismatch-after-eot"))
+          else .ret (.ok buf)
       else .ret (.error (.proto "unexpected-byte-in-compressed-stream"))
 
 /-- `readCompressed(rw, p)` -/
